@@ -39,6 +39,10 @@ def cases(tier, seed):
             yield f"C18|gf|m={m}|triples|block{blk:02d}", {"kind": "ftriples", "m": m, "blk": blk, "nblocks": nbk}
     for m in range(1, (8 if q else 10) + 1):
         yield f"C18|gf|m={m}|accessors", {"kind": "faccessors", "m": m}
+    # histories that cross fields: the same integer value looked at in GF(2^m1) and straight afterwards in GF(2^m2) (minimal polynomial, evaluation
+    # of a polynomial, powers, conjugates) - one process per ordered pair block
+    for m1 in range(1, 9):
+        yield f"C18|gf|cross-field|m1={m1}", {"kind": "crossfield", "m1": m1}
     for m in range(1, 17):
         full = m <= (8 if q else 10)
         nbk = 1 if m < 7 or not full else 8
@@ -154,6 +158,45 @@ def execute(p, res):
         _felems(p, res)
     elif kind == "faccessors":
         _faccessors(p, res)
+    elif p["kind"] == "crossfield":
+        _crossfield(p, res)
+
+
+def _crossfield(p, res):
+    m1 = p["m1"]
+    F1 = _field(m1)
+    R1 = Field(m1, F1.modulus.value)
+    BP = _BP()
+    for m2 in range(1, 9):
+        if m2 == m1:
+            continue
+        F2 = _field(m2)
+        R2 = Field(m2, F2.modulus.value)
+        cfg = f"m1={m1},m2={m2}"
+        lim = min(F1.size, F2.size)
+        for v_ in range(lim):
+            try:
+                a1, a2 = F1(v_), F2(v_)
+                obs = []
+                for (A, R) in ((a1, R1), (a2, R2), (a1, R1)):
+                    mp = A.minimal_polynomial().value if v_ else None
+                    ev_ = BP(0b1011011).evaluate(A).value
+                    obs.append((mp, ev_, [c.value for c in A.conjugates()], (A ** 5).value, A.trace()))
+                    want = (R.minpoly(v_) if v_ else None, R.eval_poly(0b1011011, v_), None, R.pow(v_, 5), R.trace(v_))
+                    res.ev(1, nontrivial=1, transitions=5)
+                    if obs[-1][0] != want[0] or obs[-1][1] != want[1] or obs[-1][3] != want[3] or obs[-1][4] != want[4]:
+                        res.viol("gf", cfg, "minpoly" if obs[-1][0] != want[0] else "field-laws", f"value {v_} looked at in GF(2^{m1}) and GF(2^{m2}) in turn: in GF(2^{R.m if hasattr(R, 'm') else '?'}) "
+                                 f"(minimal polynomial, p(a), a^5, trace) = {(obs[-1][0], obs[-1][1], obs[-1][3], obs[-1][4])}, reference {(want[0], want[1], want[3], want[4])}", [v_])
+                        raise StopIteration
+                if obs[0] != obs[2]:
+                    res.viol("gf", cfg, "field-laws", f"value {v_}: the answers in GF(2^{m1}) differ before and after the same questions were asked in GF(2^{m2})", [v_])
+                    raise StopIteration
+            except StopIteration:
+                break
+            except Exception as e:  # noqa: BLE001
+                res.viol("gf", cfg, "raises", f"value {v_} looked at in GF(2^{m1}) then GF(2^{m2}): {type(e).__name__}: {str(e)[:160]}", [v_])
+                break
+    res.sample({"m1": m1})
 
 
 def _faccessors(p, res):
